@@ -14,9 +14,12 @@
     < unary < ^; .. and ^ right associative) plus Luau's "//" at the level of "*".
 
     Fragment: the 16 binary and 3 unary operators, explicit parentheses as nodes
-    ([EParen], as darklua's [Expression::Parenthese]) and abstract atoms (anything the
-    generator never parenthesises and that begins and ends inside itself: names, literals,
-    calls, indexing, tables, functions).  If-expressions and type casts are outside. *)
+    ([EParen], as darklua's [Expression::Parenthese]), type casts [ECast x k] (the type is
+    abstract: [CBare] = a type name without type parameters, [T] or [mod.T], after which
+    Luau reads a following "<" as the start of type parameters; [CParam] = any other type)
+    and abstract atoms (anything the generator never parenthesises and that begins and ends
+    inside itself: names, literals, calls, indexing, tables, functions).  If-expressions are
+    outside. *)
 From DL Require Import Lib.Bytes.
 Open Scope N_scope.
 
@@ -41,17 +44,22 @@ Definition unop_index (u : unop) : nat := match u with Length => 0 | Neg => 1 | 
 Definition binop_eqb (a b : binop) : bool := Nat.eqb (binop_index a) (binop_index b).
 Definition unop_eqb (a b : unop) : bool := Nat.eqb (unop_index a) (unop_index b).
 
+Inductive ckind := CBare | CParam.
+Definition ckind_index (k : ckind) : nat := match k with CBare => 0 | CParam => 1 end%nat.
+
 Inductive expr :=
 | EAtom (a : N)
 | EBin (o : binop) (l r : expr)
 | EUn (u : unop) (e : expr)
-| EParen (e : expr).
+| EParen (e : expr)
+| ECast (e : expr) (k : ckind).
 
 (** tokens: "-" is ONE symbol, binary or unary by position *)
 Inductive opsym :=
 | SAnd | SOr | SEq | SNe | SLt | SLe | SGt | SGe | SPlus | SMinus | SStar | SSlash | SSlash2
 | SPercent | SCaret | SConcat | SHash | SNot.
-Inductive ptok := KAtom (a : N) | KOp (s : opsym) | KLp | KRp.
+(** [KCast k] stands for the tokens of ":: type" *)
+Inductive ptok := KAtom (a : N) | KOp (s : opsym) | KLp | KRp | KCast (k : ckind).
 
 Definition sym_of_binop (o : binop) : opsym :=
   match o with
@@ -81,13 +89,33 @@ Record ptable := {
   left_un : binop -> unop -> bool;     (* o.left_needs_parentheses(Unary(u, _)) *)
   right_bin : binop -> binop -> bool;  (* o.right_needs_parentheses(Binary(o', _, _)) *)
   right_un : binop -> unop -> bool;    (* o.right_needs_parentheses(Unary(u, _)) *)
-  un_bin : unop -> binop -> bool       (* operand Binary(o', _, _) of a unary u is parenthesised *)
+  un_bin : unop -> binop -> bool;      (* operand Binary(o', _, _) of a unary u is parenthesised *)
+  cast_bin : bool;                     (* TypeCastExpression::needs_parentheses(Binary) *)
+  cast_un : bool;                      (* ... (Unary) *)
+  cast_cast : bool;                    (* ... (TypeCast) *)
+  left_cast : binop -> ckind -> bool   (* o.left_needs_parentheses(TypeCast(_, type of kind k)) *)
 }.
 
 Definition wrap (b : bool) (e : expr) : expr := if b then EParen e else e.
 
+(** [ends_with_type_cast_to_type_name_without_type_parameters]: the walk down the RIGHT spine
+    of the tree (binary.right, unary operand, the cast itself); what is found there is judged by
+    the dumped [left_cast o] *)
+Fixpoint trailing_cast (T : ptable) (o : binop) (l : expr) : bool :=
+  match l with
+  | EBin _ _ r => trailing_cast T o r
+  | EUn _ x => trailing_cast T o x
+  | ECast _ k => left_cast T o k
+  | _ => false
+  end.
+
 Definition left_needs (T : ptable) (o : binop) (l : expr) : bool :=
-  match l with EBin o' _ _ => left_bin T o o' | EUn u _ => left_un T o u | _ => false end.
+  match l with EBin o' _ _ => left_bin T o o' | EUn u _ => left_un T o u | _ => false end
+  || trailing_cast T o l.
+
+(** [TypeCastExpression::needs_parentheses] *)
+Definition cast_inner_needs (T : ptable) (x : expr) : bool :=
+  match x with EBin _ _ _ => cast_bin T | EUn _ _ => cast_un T | ECast _ _ => cast_cast T | _ => false end.
 Definition right_needs (T : ptable) (o : binop) (r : expr) : bool :=
   match r with EBin o' _ _ => right_bin T o o' | EUn u _ => right_un T o u | _ => false end.
 Definition operand_needs (T : ptable) (u : unop) (x : expr) : bool :=
@@ -101,6 +129,7 @@ Fixpoint parenthesize (T : ptable) (e : expr) : expr :=
     EBin o (wrap (left_needs T o l) (parenthesize T l)) (wrap (right_needs T o r) (parenthesize T r))
   | EUn u x => EUn u (wrap (operand_needs T u x) (parenthesize T x))
   | EParen x => EParen (parenthesize T x)
+  | ECast x k => ECast (wrap (cast_inner_needs T x) (parenthesize T x)) k
   end.
 
 (** printing without adding anything: [EParen] is the only source of parentheses *)
@@ -110,6 +139,7 @@ Fixpoint print_plain (e : expr) : list ptok :=
   | EBin o l r => print_plain l ++ KOp (sym_of_binop o) :: print_plain r
   | EUn u x => KOp (sym_of_unop u) :: print_plain x
   | EParen x => KLp :: print_plain x ++ [KRp]
+  | ECast x k => print_plain x ++ [KCast k]
   end.
 
 (** write_expression on the fragment *)
@@ -122,6 +152,7 @@ Fixpoint strip (e : expr) : expr :=
   | EBin o l r => EBin o (strip l) (strip r)
   | EUn u x => EUn u (strip x)
   | EParen x => strip x
+  | ECast x k => ECast (strip x) k
   end.
 
 (** * the reference parser (specification) *)
@@ -148,6 +179,19 @@ Definition UNARY_PRIORITY : N := 8.
     priority above [lim]; [loop f lim e toks]: the "while next is a binary operator with
     priority above lim" part, [e] being the expression read so far.  [f] is fuel (depth of
     the calls, not tokens); running out of fuel is [None], as is a syntax error. *)
+(** Luau [parseAssertionExpr]: ONE optional ":: type" after a simple expression.  After a type
+    name without type parameters a following "<" belongs to the type (it starts its type
+    parameters): the text does not mean a comparison, which is an error here. *)
+Definition with_cast (e : expr) (t : list ptok) : option (expr * list ptok) :=
+  match t with
+  | KCast k :: t' =>
+    match k, t' with
+    | CBare, KOp SLt :: _ => None
+    | _, _ => Some (ECast e k, t')
+    end
+  | _ => Some (e, t)
+  end.
+
 Definition parser := N -> list ptok -> option (expr * list ptok).
 
 Fixpoint loop_with (sub : parser) (lim : N) (g : nat) (e : expr) (toks : list ptok)
@@ -176,10 +220,18 @@ Fixpoint subexpr (f : nat) (lim : N) (toks : list ptok) {struct f} : option (exp
   | O => None
   | S f' =>
     match toks with
-    | KAtom a :: t => loop_with (subexpr f') lim f' (EAtom a) t
+    | KAtom a :: t =>
+      match with_cast (EAtom a) t with
+      | Some (e, t') => loop_with (subexpr f') lim f' e t'
+      | None => None
+      end
     | KLp :: t =>
       match subexpr f' 0 t with
-      | Some (c, KRp :: t') => loop_with (subexpr f') lim f' (EParen c) t'
+      | Some (c, KRp :: t') =>
+        match with_cast (EParen c) t' with
+        | Some (e, t'') => loop_with (subexpr f') lim f' e t''
+        | None => None
+        end
       | _ => None
       end
     | KOp s :: t =>
@@ -208,9 +260,13 @@ Definition flag (row : list N) (i : nat) : bool := negb (nth i row 0 =? 0).
 Definition flag2 (rows : list (list N)) (i j : nat) : bool := flag (nth i rows []) j.
 
 Definition mk_ptable (left_binary right_binary left_unary right_unary : list (list N))
-           (unary_operand : list N) : ptable :=
+           (unary_operand : list N) (cast_inner : list N) (left_cast_rows : list (list N)) : ptable :=
   {| left_bin := fun o o' => flag2 left_binary (binop_index o) (binop_index o');
      left_un := fun o u => flag2 left_unary (binop_index o) (unop_index u);
      right_bin := fun o o' => flag2 right_binary (binop_index o) (binop_index o');
      right_un := fun o u => flag2 right_unary (binop_index o) (unop_index u);
-     un_bin := fun _ o' => flag unary_operand (binop_index o') |}.
+     un_bin := fun _ o' => flag unary_operand (binop_index o');
+     cast_bin := flag cast_inner 0;
+     cast_un := flag cast_inner 1;
+     cast_cast := flag cast_inner 2;
+     left_cast := fun o k => flag2 left_cast_rows (binop_index o) (ckind_index k) |}.
